@@ -1266,6 +1266,10 @@ pub fn run_scenario(text: &str) -> String {
                 let max: u32 = w.get(1).and_then(|x| x.parse().ok()).unwrap_or(60);
                 s.drain(max, 3);
             }
+            "EXCLUDED_FROM_HERE" => {
+                // marker for the oracle: from here on component w[2] of entity w[1] is private
+                writeln!(s.out, "MARK excluded {} {}", w[1], w[2]).unwrap();
+            }
             "SLEEP" => {
                 let ms: u64 = w[1].parse().unwrap();
                 std::thread::sleep(std::time::Duration::from_millis(ms));
